@@ -189,7 +189,7 @@ Section Spec.
     if fis_nan f || flt f (fzero false) then SVal MNull
     else let c := if fle (Z2F 2147483647) f then 2147483647 else ftrunc f in
          if 2147483647 <=? mlen s * c then SErr
-         else SVal (MStr (List.concat (repeat s (Z.to_nat c)))).
+         else SVal (MStr (match s, c with [], _ => [] | _, Zpos p => Pos.iter (fun acc => acc ++ s) [] p | _, _ => [] end)).
   Definition s_mul (a b : mv) : sres :=
     match a, b with
     | MObj x, MObj _ => SVal (s_merge x b)
